@@ -11,6 +11,7 @@ Node specs are plain JSON-able dicts so that they can live in a replay file:
         "dest_regex": None|str, "only_md_keys": bool, "tenant": "a"}
 """
 import copy
+import os
 import json
 
 from simcore import seams
@@ -159,6 +160,12 @@ def base_config(spec):
             svc["endpoints"]["assertion_consumer_service"].append((ep["acs_artifact"], BINDING_HTTP_ARTIFACT))
         if spec.get("acs2"):
             svc["endpoints"]["assertion_consumer_service"].append((ep["acs_post2"], BINDING_HTTP_POST))
+        if spec.get("acs_index"):
+            # endpoints given with explicit (integer) indexes, the documented 3-tuple form
+            acs_ = svc["endpoints"]["assertion_consumer_service"]
+            svc["endpoints"]["assertion_consumer_service"] = [
+                (u_, b_, spec["acs_index"][j_ % len(spec["acs_index"])] + (100 if j_ >= len(spec["acs_index"]) else 0))
+                for j_, (u_, b_) in enumerate(acs_)]
         if spec.get("dest_regex"):
             svc["valid_destination_regex"] = spec["dest_regex"]
         cnf = {
@@ -188,6 +195,9 @@ def base_config(spec):
         cnf["only_use_keys_in_metadata"] = bool(spec["only_md_keys"])
     if spec.get("allow_unknown_attributes"):
         cnf["allow_unknown_attributes"] = True
+    if spec.get("attr_map"):
+        # the deployment's own attribute maps (entity-wide option)
+        cnf["attribute_map_dir"] = os.path.join(seams.FIXTURES, "attributemaps_custom")
     return cnf
 
 
